@@ -1616,14 +1616,49 @@ func runConvertMark(c *core.Ctx) {
 					return
 				}
 				where = fn
-				for _, g := range an.GuardingEdges(cc.Block()) {
-					x, nilSucc, isNil := an.NilTest(g.If())
-					if !isNil || g.Succ != nilSucc {
-						continue
+				// the ok-edge of the decode: of the decoder call itself, or of a step of the family that does the decoding and
+				// reports its error; the ingest may also sit in a step of its own (ingest and save) that the loader calls on that
+				// edge — then every call of the step is judged
+				decodes := func(h *ssa.Function) bool {
+					found := false
+					if h != nil && len(h.Blocks) > 0 && r.FamilyOfFunc(h) == fam {
+						an.Calls(h, func(inner ssa.CallInstruction) {
+							if an.IsMethod(inner, "encoding/json", "Decoder", "Decode") || an.IsFunc(inner, "encoding/json", "Unmarshal") {
+								found = true
+							}
+						})
 					}
-					if dc, _ := an.CallOf(x); dc != nil && an.IsMethod(dc, "encoding/json", "Decoder", "Decode") {
-						ok = true
+					return found
+				}
+				var guarded func(b *ssa.BasicBlock, frame *ssa.Function, depth int) bool
+				guarded = func(b *ssa.BasicBlock, frame *ssa.Function, depth int) bool {
+					for _, g := range an.GuardingEdges(b) {
+						x, nilSucc, isNil := an.NilTest(g.If())
+						if !isNil || g.Succ != nilSucc {
+							continue
+						}
+						if dc, _ := an.CallOf(x); dc != nil {
+							if an.IsMethod(dc, "encoding/json", "Decoder", "Decode") || an.IsFunc(dc, "encoding/json", "Unmarshal") || decodes(dc.Call.StaticCallee()) {
+								return true
+							}
+						}
 					}
+					if depth >= 2 {
+						return false
+					}
+					sites := c.P.Callers(frame)
+					if len(sites) == 0 {
+						return false
+					}
+					for _, site := range sites {
+						if site.Parent() == nil || r.FamilyOfFunc(site.Parent()) != fam || site.Common().StaticCallee() != frame || !guarded(site.Block(), site.Parent(), depth+1) {
+							return false
+						}
+					}
+					return true
+				}
+				if guarded(cc.Block(), fn, 0) {
+					ok = true
 				}
 			})
 		}
